@@ -78,7 +78,8 @@ def variants(base, trace_lines, tier, rnd):
             v["ops"][cut]["crash"] = {"idx": idx, "kept": k}
             v["ops"][cut]["policy"] = base["ops"][cut].get("policy", {"kind": "first"})
             # later invocations of the base history stay; make sure two recovery runs follow
-            v["ops"] = v["ops"][:cut + 1] + [o for o in v["ops"][cut + 1:]] + [invoke([], j=2), invoke([], j=2)]
+            cd = base.get("cdir", "")     # (a project reached with -C: the recovery runs too)
+            v["ops"] = v["ops"][:cut + 1] + [o for o in v["ops"][cut + 1:]] + [invoke([], j=2, cdir=cd), invoke([], j=2, cdir=cd)]
             v["meta"] = {"kind": kind, "len": ln}
             out.append(v)
     return out
